@@ -28,13 +28,21 @@ def _k1_job(job):
         ids = {n: models.str_term(M, Str(n)) for n in names + ['int']}
         mapping = {}; sym.clear()
         if real in ('fb', 'struct'):
+            cased = fixed.get('case')
+            upper = {n: models.str_term(M, Str(n.upper())) for n in names}
             for i in range(K):
                 for j in range(K):
                     if (i, j) in fixed: e = fixed[(i, j)]
                     else: e = M.fresh_bool('e_%d_%d' % (i, j))
                     sym[(i, j)] = e
                     t = z3.If(e, ids[names[j]], ids['int']) if is_sym(e) else (ids[names[j]] if e else ids['int'])
-                    mapping['t%d_%d' % (i, j)] = (lambda t: (lambda orig: TC.ident_sym(t, orig)))(t)
+                    if cased:
+                        # the reference may be written in another letter case than the declaration: same name, different spelling
+                        cb = M.fresh_bool('upper_%d_%d' % (i, j)); sym[('case', i, j)] = cb
+                        tw = z3.If(z3.And(cb, e if is_sym(e) else z3.BoolVal(e)), upper[names[j]], t)
+                        mapping['t%d_%d' % (i, j)] = (lambda tw, t: (lambda orig: TC.ident_sym(tw, orig, t)))(tw, t)
+                    else:
+                        mapping['t%d_%d' % (i, j)] = (lambda t: (lambda orig: TC.ident_sym(t, orig)))(t)
         else:
             for i in range(K):
                 if i in fixed: b = fixed[i]
@@ -52,42 +60,58 @@ def _k1_job(job):
         part.paths += 1
         if pr.inconclusive: part.inconc(pr.inconclusive); return
         s = z3.Solver(); s.add(*pr.pc)
+        part.nontrivial += 1
+        # reference graph as a formula over the symbolic inputs: edge(i,j), then cyclic = some node reaches itself
+        def edge(i, j):
+            if real in ('fb', 'struct'):
+                e = sym[(i, j)]; return z3.BoolVal(e) if isinstance(e, bool) else e
+            b = sym[i]; return z3.BoolVal(b == j) if isinstance(b, int) else (b == j)
+        reach = [[edge(i, j) for j in range(K)] for i in range(K)]
+        for k_ in range(K):
+            reach = [[z3.Or(reach[i][j], z3.And(reach[i][k_], reach[k_][j])) for j in range(K)] for i in range(K)]
+        ref_cyc = z3.Or([reach[i][i] for i in range(K)])
+        got_rec = None
+        if not pr.panic:
+            res = pr.result; code = None
+            if res.disc == 1:
+                d = res.f[0].items[0]; c = M.deref(d.f[0]); code = c.conc() if isinstance(c, Str) else None
+            got_rec = res.disc == 1 and code is not None and ('RecursiveCycle' in code or code == 'P0010')
+        # any input consistent with this path on which the verdict differs from the reference (inputs the code never compared are free)
+        s.add(z3.BoolVal(True) if pr.panic else (ref_cyc != z3.BoolVal(got_rec)))
         t = time.time(); r = s.check(); part.solver_s += time.time() - t; part.queries += 1
-        if r != z3.sat: return
-        m = s.model(); part.nontrivial += 1
-        if real in ('fb', 'struct'):
-            edges = sorted((i, j) for (i, j), e in sym.items() if (e if isinstance(e, bool) else z3.is_true(m.eval(e, True))))
-        else:
-            edges = []
+        def edges_of(m):
+            if real in ('fb', 'struct'): return sorted(k_ for k_, e in sym.items() if len(k_) == 2 and (e if isinstance(e, bool) else z3.is_true(m.eval(e, True))))
+            out = []
             for i, b in sym.items():
                 v = b if isinstance(b, int) else m.eval(b, True).as_long()
-                if v < K: edges.append((i, v))
-        cyc = TC.reach_cyclic(K, edges)
-        role_g = '%s/K%d/%s' % (real, K, '_'.join('%d%d' % e for e in edges) or 'empty')
-        src = _source(real, K, edges)
-        if pr.panic:
-            part.add('C07/K1/panic/' + role_g, 'toposort panics on %s graph %s: %s' % (real, edges, pr.panic.msg), {'realisation': real, 'edges': edges, 'source': src}, ('graph', (src, cyc))); return
-        res = pr.result
-        got_err = res.disc == 1
-        code = None
-        if got_err:
-            d = res.f[0].items[0]; c = M.deref(d.f[0]); code = c.conc() if isinstance(c, Str) else None
-        is_p0010 = got_err and code is not None and ('RecursiveCycle' in code or code == 'P0010')
-        if is_p0010 != cyc:
-            part.add('C07/K1/verdict/' + role_g, '%s graph with edges %s is %s but the analyzer %s' % (real, edges, 'cyclic' if cyc else 'acyclic', 'reports recursion (P0010)' if is_p0010 else 'does not report recursion (%s)' % (code or 'Ok')),
-                     {'realisation': real, 'edges': edges, 'source': src, 'cyclic': cyc}, ('graph', (src, cyc)))
-        elif len(part.validate) < 1: part.validate.append(('graph', (src, cyc)))
-        if len(part.samples) < 1: part.samples.append({'realisation': real, 'K': K, 'edges': edges, 'cyclic': cyc, 'verdict': code or 'Ok'})
+                if v < K: out.append((i, v))
+            return out
+        if r == z3.sat:
+            m = s.model(); edges = edges_of(m); cyc = TC.reach_cyclic(K, edges)
+            up = sorted((k_[1], k_[2]) for k_, e in sym.items() if len(k_) == 3 and z3.is_true(m.eval(e, True)) and (k_[1], k_[2]) in edges)
+            role_g = '%s/K%d/%s%s' % (real, K, '_'.join('%d%d' % e for e in edges) or 'empty', ('/respelled-' + '_'.join('%d%d' % e for e in up)) if up else ''); src = _source(real, K, edges, up)
+            if pr.panic:
+                part.add('C07/K1/panic/' + role_g, 'toposort panics on %s graph %s: %s' % (real, edges, pr.panic.msg), {'realisation': real, 'edges': edges, 'source': src}, ('graph', (src, cyc)))
+            else:
+                part.add('C07/K1/verdict/' + role_g, '%s graph with edges %s is %s but the analyzer %s' % (real, edges, 'cyclic' if cyc else 'acyclic', 'reports recursion (P0010)' if got_rec else 'does not report recursion (%s)' % (code or 'Ok')),
+                         {'realisation': real, 'edges': edges, 'source': src, 'cyclic': cyc}, ('graph', (src, cyc)))
+        elif r == z3.unknown: part.inconc('solver unknown')
+        else:
+            s2 = z3.Solver(); s2.add(*pr.pc)
+            if s2.check() == z3.sat and len(part.validate) < 1:
+                edges = edges_of(s2.model()); part.validate.append(('graph', (_source(real, K, edges), TC.reach_cyclic(K, edges))))
+                if len(part.samples) < 1: part.samples.append({'realisation': real, 'K': K, 'edges': edges, 'verdict': 'P0010' if got_rec else 'no P0010'})
     M.explore(entry, on_path)
     part.queries += M.stats['smt']; part.encoded = set(M.encoded); part.models = set(M.models_used)
     return part
 
-def _source(real, K, edges):
-    names = _names(real, K); E = set(edges)
+def _source(real, K, edges, upper=()):
+    names = _names(real, K); E = set(edges); U = set(upper)
+    nm = lambda i, j: (names[j].upper() if (i, j) in U else names[j])
     if real == 'fb':
-        return ''.join('FUNCTION_BLOCK fb%d\nVAR\n%sEND_VAR\nEND_FUNCTION_BLOCK\n' % (i, ''.join('  v%d_%d : %s;\n' % (i, j, names[j] if (i, j) in E else 'INT') for j in range(K))) for i in range(K))
+        return ''.join('FUNCTION_BLOCK fb%d\nVAR\n%sEND_VAR\nEND_FUNCTION_BLOCK\n' % (i, ''.join('  v%d_%d : %s;\n' % (i, j, nm(i, j) if (i, j) in E else 'INT') for j in range(K))) for i in range(K))
     if real == 'struct':
-        return ''.join('TYPE\n  st%d : STRUCT\n%s  END_STRUCT;\nEND_TYPE\n' % (i, ''.join('    e%d_%d : %s;\n' % (i, j, names[j] if (i, j) in E else 'INT') for j in range(K))) for i in range(K))
+        return ''.join('TYPE\n  st%d : STRUCT\n%s  END_STRUCT;\nEND_TYPE\n' % (i, ''.join('    e%d_%d : %s;\n' % (i, j, nm(i, j) if (i, j) in E else 'INT') for j in range(K))) for i in range(K))
     d = dict(edges)
     return ''.join('TYPE\n  al%d : %s;\nEND_TYPE\n' % (i, names[d[i]] if i in d else 'INT') for i in range(K))
 
@@ -113,6 +137,9 @@ def k1(ctx, kr):
         for bits in range(16):
             jobs.append((real, K, {c: bool(bits >> n & 1) for n, c in enumerate(cells)}))
     for b0 in range(K + 1): jobs.append(('alias', K, {0: b0}))
+    # references written in another letter case than the declaration (2 nodes, one case bit per reference)
+    for real in ('fb', 'struct'):
+        for bits in range(4): jobs.append((real, 2, {'case': True, (0, 0): bool(bits & 1), (0, 1): bool(bits & 2)}))
     if ctx.tier == 'thorough':
         K4 = 4
         for b0 in range(K4 + 1):
@@ -120,7 +147,7 @@ def k1(ctx, kr):
         cells = [(i, j) for i in range(K4) for j in range(K4)][:8]
         for bits in range(256): jobs.append(('fb', K4, {c: bool(bits >> n & 1) for n, c in enumerate(cells)}))
     kr.bounds = ('every directed graph on 3 nodes (self-loops included; one symbolic bit per potential edge, 512 graphs) realised as function-block instance graph and as structure-element graph; '
-                 'every functional graph (out-degree <= 1) on 3 nodes realised as type-alias graph' + ('; thorough: 4 nodes (65536 fb graphs, 625 alias graphs)' if ctx.tier == 'thorough' else ''))
+                 'every functional graph (out-degree <= 1) on 3 nodes realised as type-alias graph; every digraph on 2 nodes (fb and struct) with every reference optionally re-spelled in upper case' + ('; thorough: 4 nodes (65536 fb graphs, 625 alias graphs)' if ctx.tier == 'thorough' else ''))
     for part in par_map(_k1_job, jobs): merge_part(kr, part)
     P = ctx.program()
     kr.functions = fn_paths(P, getattr(kr, '_enc', set()))
